@@ -81,7 +81,13 @@ def origin(v, env, pops, fetches, depth=0):
             return '%s[%s]' % (base, origin(v[2][1], env, pops, fetches, depth + 1))
         if v[1].startswith('object::Object::') or v[1].startswith('<object::Object'):
             return '%s(%s)' % (v[1].split('::')[-1], ', '.join(origin(a, env, pops, fetches, depth + 1) for a in v[2]))
+        if v[2] and depth < 6:
+            return '%s(%s)' % (v[1].split('::')[-1], ', '.join(origin(a, env, pops, fetches, depth + 1) for a in v[2]))
         return '%s(..)' % v[1].split('::')[-1]
+    if v[0] == 'downcast':
+        return '%s.%s' % (origin(v[1], env, pops, fetches, depth + 1), v[2])
+    if v[0] in ('okval', 'someval') and len(v) > 1:
+        return origin(v[1], env, pops, fetches, depth + 1)
     if v[0] == 'deref':
         return origin(v[1], env, pops, fetches, depth + 1)
     if v[0] == 'local':
